@@ -100,9 +100,28 @@ Fixpoint rattrs_eqb (a b : list rattr) : bool :=
 (* observed cls.__spec_class__ : (class, key, overflow, attrs in order) ; m_post not observed *)
 Definition obs_meta := (cid * (option aid * option aid) * list rattr)%type.
 
+(* post: for every __post_init__ body that ran, its class and the attribute names it found
+   in the instance __dict__ at that moment *)
 Inductive obs_result :=
-| OOk (d : list (aid * aval)) (post hand : list cid)
+| OOk (d : list (aid * aval)) (post : list (cid * list aid)) (hand : list cid)
 | OErr (e : err).
+
+Definition names_sim (a b : list aid) : bool :=
+  (length a =? length b) && forallb (fun x => memb x b) a && forallb (fun x => memb x a) b.
+
+Fixpoint posts_eqb (a b : list (cid * list aid)) : bool :=
+  match a, b with
+  | [], [] => true
+  | (c, l) :: a', (c', l') :: b' => (c =? c') && nats_eqb l l' && posts_eqb a' b'
+  | _, _ => false
+  end.
+
+Fixpoint posts_sim (a b : list (cid * list aid)) : bool :=
+  match a, b with
+  | [], [] => true
+  | (c, l) :: a', (c', l') :: b' => (c =? c') && names_sim l l' && posts_sim a' b'
+  | _, _ => false
+  end.
 
 Record call := mkcall { cl_pos : option aval; cl_kw : list (aid * aval); cl_obs : obs_result }.
 
@@ -131,7 +150,7 @@ Definition table_ok (q : quirks) (c : case) : bool :=
 Definition model_call_ok (q : quirks) (ra : list rcls) (cl : call) : bool :=
   match construct_in q ra (cl_pos cl) (cl_kw cl), cl_obs cl with
   | Ok s, OOk d post hand =>
-      dict_eqb (s_dict s) d && nats_eqb (s_post s) post && nats_eqb (s_hand s) hand
+      dict_eqb (s_dict s) d && posts_eqb (s_post s) post && nats_eqb (s_hand s) hand
   | Err e, OErr e' => err_eqb e e'
   | _, _ => false
   end.
@@ -139,7 +158,7 @@ Definition model_call_ok (q : quirks) (ra : list rcls) (cl : call) : bool :=
 Definition spec_call_ok (ks : list cdesc) (cl : call) : bool :=
   match expected_init ks (cl_pos cl) (cl_kw cl), cl_obs cl with
   | Ok o, OOk d post hand =>
-      dict_sim (o_dict o) d && nats_eqb (o_post o) post && nats_eqb (o_hand o) hand
+      dict_sim (o_dict o) d && posts_sim (o_post o) post && nats_eqb (o_hand o) hand
   | Err e, OErr e' => err_eqb e e'
   | _, _ => false
   end.
